@@ -379,6 +379,11 @@ CLAIMS = {
              'stepTok followed by finish) and "rejected iff the grammar is violated": accepted_iff, rejection_classified, '
              'unknown_tag_rejected, end_without_start_rejected, missing_end_tag_rejected, misplaced_continuation_rejected, '
              'simple_attribute_error_rejected, block_attribute_error_rejected (each located at the offending / the start tag); '
+             'DT_Util.parse_params / name_param (the attribute grammar of every tag) TRANSLATED from /repo on every run - '
+             'harness/trans_params.py -> GenParams.lean - and proved equal to the model: gen_params_step_is_model, '
+             'gen_params_tail_is_model, gen_parse_params_is_model (= Parse.parseParamsAux for every table, fuel, text and '
+             'dictionary), gen_parse_params_any_fuel, gen_name_param_is_model / gen_name_param_default (= Parse.nameParam); '
+             'params_progress / params_fuel_enough (every successful match consumes >= 1 character: the fuel is never used up); '
              'correspondence on valid templates in 3 syntaxes, single mutations, all '
              'prefixes, junk and a 48-entry grammar-fault corpus: acceptance, compiled tree and token streams agree; '
              'oracle: exception class, error location, pumped-family CPU time',
